@@ -657,6 +657,22 @@ def run(ctx):
     ctx.holds('R03p', m, None, 'no rendered text is used as a truth value', construct='rendered-text truth value scan',
               trivial=True)
 
+    # ---- R03q: rendering does not consult the parser's math-mode flag
+    ctx.rule('R03q', 'latex2text never reads the parsing state\'s in_math_mode: what a construct renders to is decided by '
+                     'the construct (formulas go through math_node_to_text), so a block renders the same wherever it stands', 0)
+    n_mm = 0
+    for mod_ in sorted(repo.modules.values(), key=lambda m_: m_.name):
+        if not mod_.name.startswith('pylatexenc.latex2text'):
+            continue
+        for x_ in ast.walk(mod_.tree):
+            if isinstance(x_, ast.Attribute) and x_.attr == 'in_math_mode' and isinstance(x_.ctx, ast.Load):
+                n_mm += 1
+                ctx.refuted('R03q', mod_, enclosing_stmt(x_) or x_, '%s is read in latex2text: the rendering of a construct '
+                            'depends on whether the parser was in math mode (text ligatures such as -- and \'\' stay '
+                            'unconverted inside formulas), which the documented rules do not say and which makes the text '
+                            'of a piece depend on where it stands' % short(x_, 50), construct='read of in_math_mode: ' + short(x_, 40))
+    ctx.holds('R03q', m, None, 'no read of in_math_mode in latex2text', construct='in_math_mode scan', trivial=True)
+
     return 'other', (
         'Decides the policy tables against the documented semantics and the shape of the functions '
         'through which the documented rules are applied (dispatch per node kind, scoping of the '
